@@ -1,0 +1,16 @@
+//go:build verif
+
+package repl
+
+import (
+	"io"
+
+	"fortio.org/terminal"
+)
+
+// VerifAutoComplete exposes autoCompleteCallback to the verification harness
+// (terminal output discarded).
+func VerifAutoComplete(a *AutoComplete, line string, pos int) (string, int, bool) {
+	t := &terminal.Terminal{Out: io.Discard}
+	return a.autoCompleteCallback(t, line, pos)
+}
